@@ -1,0 +1,16 @@
+//go:build !verif
+
+package store
+
+import (
+	"github.com/feichai0017/NoKV/pb"
+	myraft "github.com/feichai0017/NoKV/raft"
+)
+
+// Verification observers (see command_hook_verif.go); empty and inlined in
+// regular builds.
+
+func verifObserveApply(*commandPipeline, myraft.Entry, *pb.RaftCmdRequest, *pb.RaftCmdResponse, error) {
+}
+
+func verifObserveRead(*Store, *pb.RaftCmdRequest, uint64) {}
